@@ -678,6 +678,21 @@ func siC04Kinds(r *siReport) {
 	x := &ZInner{9, "x"}
 	check("kinds/ptr-to-first-element-then-slice", &ZK1{P: &s[0], S: s, Q: x, R: x}, func(o interface{}) *ZInner { return o.(*ZK1).Q }, func(o interface{}) *ZInner { return o.(*ZK1).R })
 	check("kinds/slice-then-ptr-to-first-element", &ZK2{S: s, P: &s[0], Q: x, R: x}, func(o interface{}) *ZInner { return o.(*ZK2).Q }, func(o interface{}) *ZInner { return o.(*ZK2).R })
+	// a cycle whose outermost container is a list (nobody assigns that list to a field)
+	{
+		n := &ZS{ID: 1}
+		kids := []*ZS{n, {ID: 2}}
+		n.L = kids
+		out, err := siRoundTrip(kids)
+		g, ok := out.([]*ZS)
+		if err != nil {
+			r.fail("kinds/top-level-list-cycle", err.Error())
+		} else if !ok || len(g) != 2 || len(g[0].L) != 2 || g[0].L[0] != g[0] {
+			r.fail("kinds/top-level-list-cycle", fmt.Sprintf("the element's reference to the list was lost: %+v", out))
+		} else {
+			r.ok("kinds/top-level-list-cycle")
+		}
+	}
 	// a list longer than the decoder's first allocation that contains its owner: the cycle survives the list's growth
 	for _, n := range []int{8, 1024, 1025, 3000} {
 		root := &ZS{ID: 1}
@@ -1041,6 +1056,7 @@ func siC05(r *siReport) {
 	r.done("all 120 permutations of 5 fields x {all, one dropped, unknown field first, unknown field in the middle} x class table positions {0,1,2} (and {15,16,17,40} for every 17th permutation)")
 }
 
+type ZMapL struct{ M map[string][]int32 }
 type ZNest struct {
 	G [][]int32
 	N int32
@@ -1048,7 +1064,7 @@ type ZNest struct {
 
 func siC03(r *siReport) {
 	tm := map[string]reflect.Type{"[int": reflect.TypeOf([]int32{}), "ZInner": reflect.TypeOf(ZInner{}), "[string": reflect.TypeOf([]string{}), "[goint": reflect.TypeOf([]int{}),
-		"[ZInnerV": reflect.TypeOf([]ZInner{}), "[ZInnerP": reflect.TypeOf([]*ZInner{}), "ZNest": reflect.TypeOf(ZNest{})}
+		"[ZInnerV": reflect.TypeOf([]ZInner{}), "[ZInnerP": reflect.TypeOf([]*ZInner{}), "ZNest": reflect.TypeOf(ZNest{}), "ZMapL": reflect.TypeOf(ZMapL{}), "[[int32": reflect.TypeOf([][]int32{})}
 	type tc struct {
 		name string
 		bs   []byte
@@ -1073,6 +1089,8 @@ func siC03(r *siReport) {
 		{"binary/two-octet-form-3", []byte{0x34, 3, 1, 2, 3}, []byte{1, 2, 3}},
 		{"binary/two-octet-form-260", append([]byte{0x35, 4}, bytes.Repeat([]byte{7}, 260)...), bytes.Repeat([]byte{7}, 260)},
 		{"binary/chunk-then-two-octet", []byte{0x41, 0, 1, 9, 0x34, 2, 1, 2}, []byte{9, 1, 2}},
+		{"list/untyped-as-map-value", append(append([]byte{'C', 5}, "ZMapL"...), 0x91, 1, 'm', 0x60, 'H', 1, 'a', 0x7a, 0x91, 0x92, 'Z'), &ZMapL{M: map[string][]int32{"a": {1, 2}}}},
+		{"list/typed-outer-untyped-inner", append(append(append([]byte{'C', 5}, "ZNest"...), 0x92, 1, 'g', 1, 'n', 0x60, 0x72, 7), append([]byte("[[int32"), 0x79, 0x91, 0x7a, 0x92, 0x93, 0x95)...), &ZNest{G: [][]int32{{1}, {2, 3}}, N: 5}},
 		{"list/nested-untyped-into-typed-field", append(append([]byte{'C', 5}, "ZNest"...), 0x92, 1, 'g', 1, 'n', 0x60, 0x79, 0x7a, 0x91, 0x92, 0x95), &ZNest{G: [][]int32{{1, 2}}, N: 5}},
 		{"list/var-untyped-with-null", []byte{0x57, 0x90, 0x4e, 0x91, 0x5a}, []interface{}{int32(0), nil, int32(1)}},
 		{"list/var-typed-strings-with-null", append(append([]byte{0x55, 7}, "[string"...), 0x4e, 0x01, 'a', 0x5a), []string{"", "a"}},
@@ -1121,7 +1139,7 @@ func siC03(r *siReport) {
 			r.ok("custom-name-on-the-wire")
 		}
 	}
-	r.done("34 hand-written alternative encodings from the grammar (full-width/compact scalars, chunk splits, all four binary forms, variable/fixed/compact lists, variable-length lists with null elements and with elements that need conversion, type back-reference, long-form instance, class definitions away from their first instance)")
+	r.done("36 hand-written alternative encodings from the grammar (full-width/compact scalars, chunk splits, all four binary forms, variable/fixed/compact lists, variable-length lists with null elements and with elements that need conversion, type back-reference, long-form instance, class definitions away from their first instance)")
 }
 
 // ---------------------------------------------------------------- C06: streaming
@@ -1522,6 +1540,8 @@ func siC14(r *siReport) {
 			}
 		}
 	}
+	try("cyclic/list-into-self-typed-list-field", []byte{0x43, 0x01, 0x48, 0x91, 0x04, 0x76, 0x61, 0x6c, 0x73, 0x60, 0x79, 0x51, 0x91}, map[string]reflect.Type{"H": reflect.TypeOf(struct{ Vals ZNestList }{})})
+	try("selfptr/field-of-mutually-pointing-types", []byte{0x43, 0x01, 0x48, 0x91, 0x01, 0x70, 0x60, 0x4e}, map[string]reflect.Type{"H": reflect.TypeOf(struct{ P ZMutPtrA }{})})
 	try("selfptr/field-of-self-pointing-type", []byte{0x43, 0x01, 0x51, 0x91, 0x01, 0x66, 0x60, 0x90}, map[string]reflect.Type{"Q": reflect.TypeOf(ZSelfPtrHolder{})})
 	// a list referenced many times into fields of another slice type: the work must not be (elements x references)
 	{
@@ -1674,6 +1694,18 @@ type ZOwnNamedEmb struct {
 
 func (ZOwnNamedEmb) HessianCodecName() string { return "com.zoo.OwnNamedEmb" }
 
+type ZMutPtrA *ZMutPtrB
+type ZMutPtrB *ZMutPtrA
+type ZPtrToOwnList *[]ZPtrToOwnList
+type ZNilEmbNamed struct {
+	*ZNamed
+	K int32
+}
+type ZEvent struct {
+	When  time.Time
+	Where Location
+}
+
 type ZNestList []ZNestList
 type ZNestMap map[string]ZNestMap
 type ZSelfPtr *ZSelfPtr
@@ -1760,6 +1792,12 @@ func siC16(r *siReport) {
 			r.ok("pointer-receiver-name/" + name)
 		}
 	}
+	// TypeMapOf does not take the caller's Location for time.Location
+	if tm := TypeMapOf(reflect.TypeOf(ZEvent{})); tm["Location"] != reflect.TypeOf(Location{}) {
+		r.fail("typemapof-time-location", fmt.Sprintf("Location is %v", tm["Location"]))
+	} else {
+		r.ok("typemapof-time-location")
+	}
 	// a struct with its own custom name that embeds a custom-named struct keeps its own name
 	{
 		_, nm := ExtractTypeNameMap(&ZOwnNamedEmb{})
@@ -1770,7 +1808,8 @@ func siC16(r *siReport) {
 		}
 	}
 	// named list, map and pointer types that contain themselves (no struct in between)
-	for name, typ := range map[string]reflect.Type{"nest-list": reflect.TypeOf(ZNestList{}), "nest-map": reflect.TypeOf(ZNestMap{}), "self-pointer-field": reflect.TypeOf(ZSelfPtrHolder{})} {
+	for name, typ := range map[string]reflect.Type{"nest-list": reflect.TypeOf(ZNestList{}), "nest-map": reflect.TypeOf(ZNestMap{}), "self-pointer-field": reflect.TypeOf(ZSelfPtrHolder{}),
+		"mutual-pointers": reflect.TypeOf(struct{ P ZMutPtrA }{}), "pointer-to-own-list": reflect.TypeOf(struct{ P ZPtrToOwnList }{}), "nil-embedded-named": reflect.TypeOf(ZNilEmbNamed{})} {
 		done := make(chan struct{})
 		go func() { TypeMapOf(typ); ExtractTypeNameMap(reflect.New(typ).Interface()); close(done) }()
 		select {
@@ -1780,7 +1819,7 @@ func siC16(r *siReport) {
 			r.fail("selfref/"+name, "did not terminate")
 		}
 	}
-	r.done("3 named list/map/pointer types that contain themselves; 8 zoo types (recursive, mutually recursive, slices of slices, maps of pointers, custom-named with value and pointer receiver, embedding a custom-named struct, a type named like one inside time.Time) x witnesses {zero value, populated} x every other witness round-tripped with the extracted maps")
+	r.done("6 named list/map/pointer types that contain themselves or each other, a struct embedding a nil pointer to a custom-named type; 8 zoo types (recursive, mutually recursive, slices of slices, maps of pointers, custom-named with value and pointer receiver, embedding a custom-named struct, a type named like one inside time.Time) x witnesses {zero value, populated} x every other witness round-tripped with the extracted maps")
 }
 
 func TestGovcStandin(t *testing.T) {
